@@ -18,6 +18,7 @@ EXTRAS = [
     lambda rep, fb, tier: st.rule_clone(rep, fb),
     lambda rep, fb, tier: cs.rule_dispatch(rep, fb),
     lambda rep, fb, tier: origin.rule_origin(rep, fb),
+    lambda rep, fb, tier: __import__("vf.rules.kernels", fromlist=["x"]).rule_kernel_siblings(rep, fb),
     lambda rep, fb, tier: origin.rule_rebase(rep, fb),
     lambda rep, fb, tier: origin.rule_merge_regular(rep, fb),
     lambda rep, fb, tier: records.rule_regular_length(rep, fb),
